@@ -4,6 +4,8 @@
                       same block format (events instead of logger text).
 -/
 import Masscanned.Model.Net
+import Masscanned.Spec.Judge
+import Masscanned.Spec.LogGrammar
 open Masscanned
 
 def parseIp (s : String) : Option Ip :=
@@ -146,9 +148,90 @@ partial def modelLoop (h : IO.FS.Stream) (out : IO.FS.Stream) (s : DState) : IO 
       out.putStrLn "@@E"
       modelLoop h out s'
 
+/-! ### judge mode: Spec predicates on the implementation's observations -/
+
+structure JD where
+  cfg : Cfg := ({} : DState).cfg
+  js : Spec.JState := {}
+
+def showVerdict (v : Spec.Verdict) : String :=
+  if v.ok then s!"V ok {if v.nontrivial then 1 else 0}" else s!"V FAIL 1 {v.clause}"
+
+def judgeFrame (prop : String) (s : JD) (f : Bytes) (r : Option Bytes) (t : Nat) : JD × Spec.Verdict :=
+  match prop with
+  | "C02" => (s, Spec.judgeC02 s.cfg f r)
+  | "C03" => (s, Spec.judgeC03 s.cfg f r)
+  | "C04" => (s, Spec.judgeC04 r)
+  | "C05" => (s, (Spec.judgeC05arp s.cfg f r).getD (Spec.pass false))
+  | "C06" => (s, Spec.judgeC06 s.cfg f r)
+  | "C07" => let (js, v) := Spec.judgeC07 s.cfg s.js f r; ({ s with js := js }, v)
+  | "C09" => let (js, v) := Spec.judgeC09 s.cfg s.js f t; ({ s with js := js }, v)
+  | _ => (s, Spec.pass false)
+
+def judgeOp (prop : String) (s : JD) (line : String) : JD × Option String :=
+  let toks := (line.trimAscii.toString.splitOn " ").filter (· ≠ "")
+  match toks with
+  | "C" :: rest => ({ s with cfg := parseCfg s.cfg rest }, none)
+  | ["X"] => ({ s with js := {} }, none)
+  | ["F", h, r, t] =>
+    match unhex h with
+    | none => (s, some "V skip 0 bad-op")
+    | some f =>
+      if r.startsWith "PANIC" then (s, some "V skip 0 panic")
+      else
+        let ro : Option Bytes := if r == "-" then none else unhex r
+        let (s', v) := judgeFrame prop s f ro (t.toNat?.getD 0)
+        (s', some (showVerdict v))
+  | _ => (s, none)
+
+def parseLayer : String → Option Layer
+  | "eth" => some .eth | "arp" => some .arp | "ipv4" => some .ipv4 | "ipv6" => some .ipv6
+  | "icmpv4" => some .icmpv4 | "icmpv6" => some .icmpv6 | "tcp" => some .tcp | "udp" => some .udp
+  | _ => none
+def parseVerb : String → Option Verb
+  | "recv" => some .recv | "drop" => some .drop | "send" => some .send | _ => none
+def optBytes (s : String) : Option Bytes := if s == "-" then none else unhex s
+def optNat (s : String) : Option Nat := if s == "-" then none else s.toNat?
+
+/-- "layer,verb,macsrc,macdst,ipsrc,ipdst,transport,psrc,pdst" -/
+def parseEv (s : String) : Option Ev :=
+  match s.splitOn "," with
+  | [l, v, ms, md, is, id, tr, ps, pd] =>
+    match parseLayer l, parseVerb v with
+    | some l, some v =>
+      some { layer := l, verb := v,
+             ci := { macSrc := optBytes ms, macDst := optBytes md, ipSrc := parseIp is, ipDst := parseIp id,
+                     transport := optNat tr, portSrc := optNat ps, portDst := optNat pd } }
+    | _, _ => none
+  | _ => none
+
+def judgeLog (line : String) : Option String :=
+  let toks := (line.trimAscii.toString.splitOn " ").filter (· ≠ "")
+  match toks with
+  | ["L", h, r, evs] =>
+    match unhex h with
+    | none => some "V skip 0 bad-op"
+    | some f =>
+      let ro : Option Bytes := if r == "-" then none else unhex r
+      let parts := if evs == "-" then [] else evs.splitOn ";"
+      let es := parts.map parseEv
+      if es.any (·.isNone) then some "V FAIL 1 unparsable event line"
+      else some (showVerdict (Spec.judgeC20 f ro (es.filterMap id)))
+  | _ => none
+
+partial def judgeLoop (prop : String) (h : IO.FS.Stream) (out : IO.FS.Stream) (s : JD) : IO Unit := do
+  let line ← h.getLine
+  if line.isEmpty then return ()
+  let (s', o) := if line.startsWith "L " then (s, judgeLog line) else judgeOp prop s line
+  match o with
+  | some l => out.putStrLn l
+  | none => pure ()
+  judgeLoop prop h out s'
+
 def main (args : List String) : IO UInt32 := do
   let stdin ← IO.getStdin
   let stdout ← IO.getStdout
   match args with
   | ["model"] => modelLoop stdin stdout {}; return 0
+  | ["judge", prop] => judgeLoop prop stdin stdout {}; return 0
   | _ => IO.eprintln "usage: mdriver model"; return 2
